@@ -16,6 +16,10 @@ VERIF = os.path.dirname(os.path.dirname(os.path.abspath(__file__)))
 REPO = os.environ.get("VERIF_REPO", "/repo")
 BUILD = os.path.join(VERIF, "build")
 EVID = os.path.join(VERIF, "evidence")
+if os.path.realpath(REPO) != "/repo":
+    # a scratch copy of the repository (self-validation with mutants): keep its output apart
+    BUILD = os.path.join(VERIF, "build", "alt-" + hashlib.sha1(os.path.realpath(REPO).encode()).hexdigest()[:8])
+    EVID = os.path.join(BUILD, "evidence")
 KNOWN = os.path.join(VERIF, "known_findings.txt")
 KIT = os.path.join(VERIF, "harness", "common", "vkit_test.go.tmpl")
 
